@@ -27,6 +27,8 @@ import sym  # noqa: E402
 
 KERNELS = {
     "C01": ["k_index_of", "k_str_slice", "k_str_insert", "k_random", "k_unique_id", "k_str_index_length"],
+    "C02": ["k_lock_loading"],
+    "C03": ["k_load_module"],
     "C06": ["k_unique_id", "k_random"],
     "C11": ["k_plus_minus_units", "k_numeric_cmp", "k_unitset_simplify"],
     "C13": ["k_map_merge"],
